@@ -441,7 +441,7 @@ func (vc *VC) effectTag(key string) string {
 }
 
 // logEffect appends one event to the trace.
-func (vc *VC) logEffect(st *State, key string, recv string, strs []string, err string, payload string, ptr string, b1 string, from string) string {
+func (vc *VC) logEffect(st *State, key string, recv string, strs []string, err string, payload string, ptr string, b1 string, from string, i1 string) string {
 	tc, lc := vc.traceCells(st)
 	s1, s2, s3 := "\"\"", "\"\"", "\"\""
 	if len(strs) > 0 {
@@ -471,7 +471,10 @@ func (vc *VC) logEffect(st *State, key string, recv string, strs []string, err s
 	if from == "" {
 		from = "(- 1)"
 	}
-	ev := fmt.Sprintf("(mk_ev %s %s %s %s %s %s %s %s %s %s)", vc.effectTag(key), recv, s1, s2, s3, err, payload, ptr, b1, from)
+	if i1 == "" {
+		i1 = "0"
+	}
+	ev := fmt.Sprintf("(mk_ev %s %s %s %s %s %s %s %s %s %s %s)", vc.effectTag(key), recv, s1, s2, s3, err, payload, ptr, b1, from, i1)
 	ln := st.cells[lc]
 	st.cells[tc] = vc.define("trace", "(Array Int Event)", fmt.Sprintf("(store %s %s %s)", st.cells[tc], ln, ev))
 	st.cells[lc] = vc.define("tlen", "Int", fmt.Sprintf("(+ %s 1)", ln))
